@@ -493,14 +493,17 @@ static void run_minimal(Tape &t, const std::vector<Bytes> &chain, const std::str
 	if (cfg & 2) br_x509_minimal_set_time(xc.c, VALID_DAYS, VALID_SECS);
 	if (cfg & 4) { br_x509_minimal_set_rsa(xc.c, &br_rsa_i15_pkcs1_vrfy); br_x509_minimal_set_ecdsa(xc.c, &br_ec_all_m15, &br_ecdsa_i15_vrfy_asn1); }
 	// name elements with small buffers
-	static const unsigned char OID_CN_[] = { 3, 0x55, 0x04, 0x03 }, OID_O_[] = { 3, 0x55, 0x04, 0x0A }, OID_DNS[] = { 0, 0, 2 }, OID_MAIL[] = { 0, 0, 1 }, OID_OU_[] = { 3, 0x55, 0x04, 0x0B };
+	static const unsigned char OID_CN_[] = { 3, 0x55, 0x04, 0x03 }, OID_O_[] = { 3, 0x55, 0x04, 0x0A }, OID_DNS[] = { 0, 2 }, OID_MAIL[] = { 0, 1 }, OID_OU_[] = { 3, 0x55, 0x04, 0x0B };
 	unsigned ne = (cfg >> 3) % 5;
 	std::vector<br_name_element> elts(ne);
 	std::vector<std::unique_ptr<char[]>> ebufs;
 	static const size_t ESZ[] = { 1, 2, 5, 16, 64, 256, 300 };
 	for (unsigned i = 0; i < ne; i++) {
 		const unsigned char *oids[] = { OID_CN_, OID_DNS, OID_O_, OID_MAIL, OID_OU_ };
-		size_t sz = ESZ[t.u8() % 7];
+		// (exact-size heap buffers: half of them of every small size, so that values exactly as long as the buffer,
+		// one shorter and one longer all occur for the names of the corpus)
+		unsigned zs = t.u8();
+		size_t sz = (zs & 1) ? 1 + (zs >> 1) % 40 : ESZ[(zs >> 1) % 7];
 		ebufs.emplace_back(new char[sz]);
 		memset(ebufs.back().get(), 'x', sz);
 		elts[i].oid = oids[(i + (cfg >> 6)) % 5];
